@@ -1,5 +1,5 @@
 # replay of a bounded stand-in violation (C13): re-run native/c13_tdm.py
 import sys
-print("calls ('unroll1', 'space1', 'unroll1'): the program no longer runs: IndexError: list index out of range")
+print('delays=[2, 3], leading identity bins per loop=[4, 4]: get_crop_value() = 5, in the hand-written loop the first 4 detected pulses are vacuum and pulse 4 carries light')
 print('REPLAY-VIOLATION')
 sys.exit(1)
